@@ -215,6 +215,32 @@ func (bc *BuildCtx) Build(s *MsgSpec) sdk.Msg {
 			return m
 		}
 		return &aoltypes.MsgCreateTopicRequest{} // dangling reference after minimisation: a harmless invalid message
+	case "retarget":
+		// an observed DID message replayed under a different did field: same document, method id and signature
+		switch t := bc.Built(s.OfTx, s.OfMsg).(type) {
+		case *didtypes.MsgCreateDIDRequest:
+			c := *t
+			c.Did = s.f("did")
+			if s.f("from") != "" {
+				c.FromAddress = s.f("from")
+			}
+			if s.f("as_update") != "" {
+				return &didtypes.MsgUpdateDIDRequest{Did: c.Did, Document: c.Document, VerificationMethodId: c.VerificationMethodId, Signature: c.Signature, FromAddress: c.FromAddress}
+			}
+			return &c
+		case *didtypes.MsgUpdateDIDRequest:
+			c := *t
+			c.Did = s.f("did")
+			if s.f("from") != "" {
+				c.FromAddress = s.f("from")
+			}
+			return &c
+		case *didtypes.MsgDeactivateDIDRequest:
+			c := *t
+			c.Did = s.f("did")
+			return &c
+		}
+		return &aoltypes.MsgCreateTopicRequest{}
 	case "aol.CreateTopic":
 		return &aoltypes.MsgCreateTopicRequest{TopicName: s.f("topic"), Description: s.f("desc"), OwnerAddress: s.f("owner")}
 	case "aol.AddWriter":
